@@ -121,7 +121,7 @@ type Finding struct {
 
 func die2(format string, args ...any) {
 	fmt.Fprintf(os.Stderr, "vcheck: "+format+"\n", args...)
-	os.Exit(2)
+	exitClean(2)
 }
 
 func goEnv() []string {
@@ -280,6 +280,17 @@ func ensureBuilt(race bool) *build {
 func exists(p string) bool { _, err := os.Stat(p); return err == nil }
 
 var raceLogSeq int
+
+// exitClean removes this process's race-detector log files before exiting.
+func exitClean(code int) {
+	if m, _ := filepath.Glob(filepath.Join(os.TempDir(), fmt.Sprintf("vrace-%d-*", os.Getpid()))); len(m) > 0 {
+		for _, f := range m {
+			_ = os.Remove(f)
+		}
+	}
+	os.Exit(code)
+}
+
 
 func simEnv(extra ...string) []string {
 	env := append(os.Environ(), "GODEBUG=asyncpreemptoff=1")
@@ -642,7 +653,7 @@ func main() {
 	}
 	if len(pos) != 1 {
 		flag.Usage()
-		os.Exit(2)
+		exitClean(2)
 	}
 	prop := pos[0]
 	seed := uint64(20260921)
@@ -656,7 +667,7 @@ func main() {
 	startT := time.Now()
 
 	if *replay != "" {
-		os.Exit(doReplay(prop, *replay))
+		exitClean(doReplay(prop, *replay))
 	}
 
 	b := ensureBuilt(false)
@@ -669,7 +680,7 @@ func main() {
 		b = ensureBuilt(true)
 	}
 	if *detTest {
-		os.Exit(determinismSelfTest(b, prop, *tier, seed))
+		exitClean(determinismSelfTest(b, prop, *tier, seed))
 	}
 	n := info.Quick
 	if *tier == "thorough" {
@@ -686,14 +697,22 @@ func main() {
 		bud = *budget
 	}
 
-	results, crashes, harnessErrs := fanOut(b, prop, *tier, seed, n, *procs, bud, *keepGoing, info)
+	results, crashes, harnessErrs := fanOut(b, prop, *tier, seed, n, *procs, bud, *keepGoing, info, 0)
+	if info.Race && len(harnessErrs) == 0 {
+		// the scenario's logical oracles do not need the detector: a second batch on the plain
+		// build (about ten times faster) explores many more interleavings with the same seed
+		// (run indices continue after the race batch)
+		plain := ensureBuilt(false)
+		r2, c2, h2 := fanOut(plain, prop, *tier, seed, n*10, *procs, bud, *keepGoing, info, n)
+		results, crashes, harnessErrs = append(results, r2...), append(crashes, c2...), append(harnessErrs, h2...)
+	}
 	wall := time.Since(startT).Seconds()
 
 	// harness trouble first: never report a violation from a broken harness
 	if len(harnessErrs) > 0 {
 		fmt.Fprintf(os.Stderr, "vcheck: %d run(s) ended with a harness error; first:\n%s\n", len(harnessErrs), harnessErrs[0])
 		writeEvidence(prop, *tier, seed, info, b, results, wall, 0, nil)
-		os.Exit(2)
+		exitClean(2)
 	}
 
 	findings := loadFindings()
@@ -713,15 +732,31 @@ func main() {
 	var reported []string
 	unknownViolations := 0
 	if len(viols) > 0 {
-		p := newPool(b, min(*procs, 16), prop, *tier)
-		defer p.stop()
+		pools := map[*build]*pool{}
+		poolOf := func(bb *build) *pool {
+			if pools[bb] == nil {
+				pools[bb] = newPool(bb, min(*procs, 16), prop, *tier)
+			}
+			return pools[bb]
+		}
+		defer func() {
+			for _, pp := range pools {
+				pp.stop()
+			}
+		}()
 		seenClass := map[string]bool{}
+		postDeadline := time.Now().Add(5 * time.Minute)
 		for _, v := range viols {
 			key := v.Viol.Class + "|" + v.Viol.Sig
 			if seenClass[key] {
 				continue
 			}
 			seenClass[key] = true
+			// race scenarios: only detector reports need the (slow) race build to replay
+			p := poolOf(b)
+			if info.Race && v.Viol.Class != "data-race" {
+				p = poolOf(ensureBuilt(false))
+			}
 			if f := matchFinding(findings, prop, v.Viol); f != nil {
 				if !known[f.What] {
 					known[f.What] = true
@@ -734,6 +769,14 @@ func main() {
 				path := writeReplay(prop, *tier, seed, v, nil, b, 0)
 				fmt.Printf("VIOLATION property=%s replay=%s\n", prop, path)
 				fmt.Printf("  class=%s detail=%s\n", v.Viol.Class, firstLine(v.Viol.Detail))
+				unknownViolations++
+				exit = 1
+				continue
+			}
+			if time.Now().After(postDeadline) {
+				// enough time spent on confirming and minimising: report the rest as found
+				path := writeReplay(prop, *tier, seed, v, v.Tapes, b, 0)
+				fmt.Printf("VIOLATION property=%s replay=%s\n  class=%s sig=%s (not minimised: post-processing budget used up)\n  %s\n", prop, path, v.Viol.Class, v.Viol.Sig, firstLine(v.Viol.Detail))
 				unknownViolations++
 				exit = 1
 				continue
@@ -778,7 +821,7 @@ func main() {
 	if exit == 0 {
 		fmt.Printf("OK property=%s tier=%s runs=%d wall=%.1fs\n", prop, *tier, len(results), time.Since(startT).Seconds())
 	}
-	os.Exit(exit)
+	exitClean(exit)
 }
 
 func firstLine(s string) string {
@@ -788,7 +831,7 @@ func firstLine(s string) string {
 	return s
 }
 
-func fanOut(b *build, prop, tier string, seed uint64, n, procs, budgetS int, keepGoing bool, info *ScenarioInfo) (results []*Result, crashes []*Result, harnessErrs []string) {
+func fanOut(b *build, prop, tier string, seed uint64, n, procs, budgetS int, keepGoing bool, info *ScenarioInfo, from int) (results []*Result, crashes []*Result, harnessErrs []string) {
 	if procs > n {
 		procs = n
 	}
@@ -808,7 +851,7 @@ func fanOut(b *build, prop, tier string, seed uint64, n, procs, budgetS int, kee
 			out := filepath.Join(tmp, fmt.Sprintf("w%d.jsonl", k))
 			cmd := exec.Command(b.bin, "-test.run", "^TestSim$", "-test.timeout", "0", "-test.cpu", "1")
 			env := simEnv("VSIM_MODE=batch", "VSIM_PROP="+prop, "VSIM_TIER="+tier, "VSIM_SEED="+strconv.FormatUint(seed, 10),
-				"VSIM_FROM="+strconv.Itoa(k), "VSIM_TO="+strconv.Itoa(n), "VSIM_STRIDE="+strconv.Itoa(procs), "VSIM_OUT="+out,
+				"VSIM_FROM="+strconv.Itoa(from+k), "VSIM_TO="+strconv.Itoa(from+n), "VSIM_STRIDE="+strconv.Itoa(procs), "VSIM_OUT="+out,
 				"VSIM_BUDGET_S="+strconv.Itoa(budgetS), "GORACE=halt_on_error=0 exitcode=0 log_path="+filepath.Join(tmp, fmt.Sprintf("race%d", k)))
 			if keepGoing {
 				env = append(env, "VSIM_KEEP_GOING=1")
